@@ -15,15 +15,19 @@ PROP = 'C07'
 LEVEL = 'exploration'
 SHARDS = {'quick': 4, 'thorough': 16}
 BUDGET_S = {'quick': 150, 'thorough': 400}
-RULE = ('(base, reference) pairs: bases with/without path, trailing slash, query, fragment, port, userinfo, '
+RULE = ('(base, reference) pairs: bases with/without authority (rootless and rooted paths), path, trailing slash, query, fragment, port, userinfo, '
         'empty segments; references path-absolute / path-relative over every sequence of up to 4 segments from '
         '{".", "..", "", "a", "b"} (systematic) and random longer ones, query-only, fragment-only, empty, each '
-        '+- query +- fragment, and absolute references; plus chains and normalize() idempotence; distinct = '
+        '+- query +- fragment, and absolute references, given as text, as a freshly parsed URL object or as one that was '
+        'normalize()d first; every step of a chain compared with the RFC; every URL object of a chain kept and re-read; '
+        'results edited by the caller and the same navigations repeated; plus normalize() idempotence; distinct = '
         'distinct (base shape, reference) pairs whose reference contains a dot segment or climbs')
 ASSUMPTIONS = [
     'segments use characters that need no quoting so texts compare literally; scheme and host compared '
     'lower-cased; "" == "/" under an authority; an empty port or the scheme default port == no port '
     '(RFC 3986 6.2.3 equivalences - the statement says "normalized result")',
+    'cases in which the target has no authority and a path beginning with "//" are skipped (RFC 3986 3.3: not a URI; the text '
+    'would be read back as an authority)',
     'not generated (outside the statement): network-path references "//x", scheme-only references, a first '
     'relative segment containing ":", the empty-but-present query "?"; base paths contain no dot segments',
 ]
@@ -71,8 +75,9 @@ def remove_dot_segments(path):
     return ''.join(out)
 
 
-def rfc_resolve(base, ref):
-    bs, ba, bp, bq, bf = RE_SPLIT.match(base).groups()
+def rfc_resolve_parts(bparts, ref):
+    """RFC 3986 5.2.2 on components: bparts = (scheme, authority, path, query, fragment) of the base."""
+    bs, ba, bp, bq, bf = bparts
     rs, ra, rp, rq, rf = RE_SPLIT.match(ref).groups()
     if rs is not None:
         ts, ta, tp, tq = rs, ra, remove_dot_segments(rp), rq
@@ -95,7 +100,11 @@ def rfc_resolve(base, ref):
                 tq = rq
             ta = ba
         ts = bs
-    tf = rf
+    return (ts, ta, tp, tq, rf)
+
+
+def recompose(parts):
+    ts, ta, tp, tq, tf = parts
     out = ''
     if ts is not None:
         out += ts + ':'
@@ -107,6 +116,10 @@ def rfc_resolve(base, ref):
     if tf is not None:
         out += '#' + tf
     return out
+
+
+def rfc_resolve(base, ref):
+    return recompose(rfc_resolve_parts(RE_SPLIT.match(base).groups(), ref))
 
 
 RFC54_BASE = 'http://a/b/c/d;p?q'
@@ -197,12 +210,51 @@ def check_nav(c, st):
         want = base
         chain = []
         kept = [(b, snap(b))]       # every URL object of the chain is kept and must stay as it was
+        results = []
+        eff_refs = []
+        want_parts = RE_SPLIT.match(base).groups()
         for ref in refs:
-            want = rfc_resolve(want, ref)
-            # the destination may be given as text or as a URL object
-            cur = cur.navigate(uu.URL(ref) if c.get('ref_as_url') else ref)
+            # the destination may be given as text or as a URL object (fresh from the parser, or one that has
+            # been through normalize() - the reference is then whatever that object's text is)
+            dest = ref
+            if c.get('ref_as_url'):
+                dest = uu.URL(ref)
+                if c.get('ref_prep') == 'normalize':
+                    nd = uu.URL(ref)
+                    nd.normalize()
+                    if snap(uu.URL(nd.to_text())) == snap(nd):      # its text still denotes the same reference
+                        dest, ref = nd, nd.to_text()
+            eff_refs.append(ref)
+            prev_text = cur.to_text()
+            prev_rootless = not any(cur.path_parts[:1] == (x,) for x in ('',)) if cur.path_parts else True
+            prev_parts = want_parts
+            want_parts = rfc_resolve_parts(want_parts, ref)
+            want = recompose(want_parts)
+            cur = cur.navigate(dest)
             chain.append(cur.to_text())
+            if want_parts[1] is None and want_parts[2].startswith('//') or \
+                    (not cur.host and tuple(cur.path_parts[:2]) == ('', '') and len(cur.path_parts) > 2):
+                # no authority and a path that begins with two slashes: not a URI (RFC 3986 3.3), its text would be
+                # read back as an authority - outside the statement
+                st.count('skipped:no-authority-and-path-begins-with-two-slashes')
+                return None
             kept.append((cur, snap(cur)))
+            results.append(cur)
+            # without an authority a '..' that removes the first segment of a ROOTLESS path: the literal RFC
+            # algorithm outputs a rooted path ("x-app:a/b" + "../g" -> "x-app:/g"), boltons keeps it rootless
+            ws, wa, wp, wq, wf = want_parts
+            gs, ga, gp, gq, gf = RE_SPLIT.match(chain[-1]).groups()
+            if wa is None and ga is None and wp == '/' + gp and not prev_parts[2].startswith('/') \
+                    and ((gs or '').lower(), gq, gf) == ((ws or '').lower(), wq, wf):
+                return ('navigate:no-authority:rootless-path-rooted-by-rfc-dot-removal',
+                        'URL(%r).navigate(%r) -> %r, the literal RFC 3986 5.2.4 algorithm gives %r'
+                        % (prev_text, ref, chain[-1], want))
+            if norm(chain[-1]) != norm(want) and len(refs) > 1:
+                shape = refshape(ref)
+                return ('navigate:%s:chain%s' % (shape[0], ':url-object' if c.get('ref_as_url') and shape[0] == 'abs-url' else ''),
+                        'URL(%r).navigate%r: step %d (from %r) -> %r, RFC 3986 5.2 gives %r'
+                        % (base, tuple(eff_refs), len(eff_refs), prev_text, chain[-1], want))
+        refs = eff_refs
     except Exception as e:
         return ('navigate-raised:%s' % type(e).__name__, 'URL(%r).navigate chain %r raised %r' % (base, refs, e))
     for i, (u, was) in enumerate(kept):
@@ -259,6 +311,25 @@ def check_nav(c, st):
                     % (tuple(refs), base, step, e))
         if norm(step) != norm(got):
             return ('chain-differs-from-stepwise', 'chained %r vs stepwise %r' % (got, step))
+    # the caller goes on editing the URLs it was handed; the same navigations done again (from a freshly parsed
+    # base) must not be affected by that
+    st.monitor_evals += 1
+    try:
+        for u in results:
+            u.path_parts = tuple(u.path_parts) + ('zz-edited',)
+            u.query_params['zz-session'] = 'edited'
+            u.fragment = 'zz-edited'
+            u.host = 'edited.example'
+        cur2 = uu.URL(base)
+        chain2 = []
+        for ref in refs:
+            cur2 = cur2.navigate(uu.URL(ref) if c.get('ref_as_url') else ref)
+            chain2.append(cur2.to_text())
+    except Exception as e:
+        return ('navigate-raised:%s:second-pass' % type(e).__name__, 'second pass of %r from %r raised %r' % (refs, base, e))
+    if chain2 != chain:
+        return ('navigate:result-shared-between-calls', 'navigate%r from %r gave %r; after the caller edited those '
+                'results the same navigations give %r' % (tuple(refs), base, chain, chain2))
     sh = refshape(refs[-1])
     if 'P' in sh[1] or 'd' in sh[1]:
         st.see((c['base'], tuple(refs)))
@@ -302,7 +373,10 @@ BASES = ['http://host', 'http://host/', 'http://host/a', 'http://host/a/', 'http
          'http://host/a/b?x=1&y=2#frag', 'http://host#frag', 'http://host/?x=1', 'https://user:pw@host:8443/p/q',
          'http://user@host/a/b/', 'http://HOST/A/b', 'ftp://host:2121/d/e/f', 'http://host:80/a/b',
          'foo://host/x/y', 'http://127.0.0.1/a/b', 'http://[::1]:8080/a/b', 'http://host/a/b;p=1/c',
-         'HTTP://Host/a/b']
+         'HTTP://Host/a/b',
+         # absolute URLs without an authority: rootless and rooted paths
+         'urn:isbn', 'mailto:user@example.com', 'x-app:a/b/c', 'x-app:/a/b', 'x-app:a/b?q=1#f', 'tel:+1-201',
+         'x-app:/a/b/c/']
 SEGS = ['.', '..', '', 'a', 'b']
 
 
@@ -339,6 +413,8 @@ def gen(r):
     base = r.choice(BASES)
     nref = 1 if r.random() < 0.75 else r.randint(2, 4)
     c = {'kind': 'nav', 'base': base, 'refs': [gen_ref(r) for _ in range(nref)], 'ref_as_url': r.random() < 0.3}
+    if c['ref_as_url'] and r.random() < 0.5:
+        c['ref_prep'] = 'normalize'
     if r.random() < 0.3:
         c['prep'] = r.choice(['normalize', 'navigated'])
     if r.random() < 0.3:
@@ -370,7 +446,8 @@ def run(ctx):
             if not ctx.thorough and (i // ctx.nshards) % 3:
                 continue
             for suffix in ('', '?k=v#fr'):
-                run_case(ctx, {'kind': 'nav', 'base': base, 'refs': [ref + suffix], 'ref_as_url': bool(i % 5 == 0)},
+                run_case(ctx, {'kind': 'nav', 'base': base, 'refs': [ref + suffix], 'ref_as_url': bool(i % 5 == 0),
+                               'ref_prep': 'normalize' if i % 10 == 0 else None},
                          check, 'sys', None, shr)
         if ctx.out_of_time():
             break
